@@ -14,6 +14,14 @@ for tc in ET.parse(out).getroot().iter("testcase"):
     if not bad:
         passed.add(f"{tc.get('classname')}::{tc.get('name')}")
 missing = sorted(stable - passed)
+# tests that cannot pass in a scratch worktree (their ids contain the /repo path, or they need
+# untracked files of /repo): ignore those listed in the file named by BASELINE_IGNORE
+ign = os.environ.get("BASELINE_IGNORE")
+if ign and os.path.exists(ign):
+    ignore = set(json.load(open(ign)))
+    missing = [m for m in missing if m not in ignore]
+if os.environ.get("BASELINE_WRITE_MISSING"):
+    json.dump(missing, open(os.environ["BASELINE_WRITE_MISSING"], "w"))
 print(f"stable_pass={len(stable)} passed_now={len(passed)} missing={len(missing)} wall={time.time()-t:.0f}s")
 for m in missing[:40]:
     print("  MISSING", m)
